@@ -155,3 +155,20 @@ Proof.
   split; [unfold sec_ok, time_sec, nanos_per_sec; lia|].
   split; [unfold in_window, time_sec, nanos_per_sec; lia|]. vm_compute. reflexivity.
 Qed.
+
+(* the literal nanosecond window: the round trip holds except in the one-second band at the upper edge *)
+Lemma window_ns_seconds t tref : in_window_ns t tref ->
+  in_window t tref \/ (time_sec t - time_sec tref = 2147483648 /\ time_nsec t < time_nsec tref).
+Proof.
+  unfold in_window_ns, in_window. intros H.
+  destruct (time_sec_nsec t) as [Ht Hrt]. destruct (time_sec_nsec tref) as [Hr Hrr].
+  unfold nanos_per_sec in *.
+  destruct (Z.eq_dec (time_sec t - time_sec tref) 2147483648) as [E|E]; [right; split; [exact E|]; lia|left; lia].
+Qed.
+
+Theorem roundtrip_ns t tref :
+  0 <= time_sec tref < 2^60 -> in_window_ns t tref -> time_sec t - time_sec tref <> 2147483648 ->
+  t - 1 <= time_of_time64 (time64_of_time t) tref <= t.
+Proof.
+  intros Hr Hw Hne. destruct (window_ns_seconds t tref Hw) as [H|[H _]]; [apply roundtrip; assumption|contradiction].
+Qed.
